@@ -15,7 +15,7 @@ func init() {
 		ID: "C15", Fn: c15,
 		Rule:        "one evaluation = one Evaluate call compared with a sibling call that must agree: same position again, fresh evaluator, fresh position from FEN vs reached by play, after a do/undo excursion, after 100 unrelated evaluations, colour mirror (refchess mirror: ranks flipped, colours/rights/side swapped, ep flipped); plus position observables unchanged by Evaluate and insufficient material => 0; under 5 evaluation configurations (default, lazy, advanced piece, both, mobility toggled); distinct = distinct (position identity, configuration)",
 		Assumptions: []string{"refchess mirror defines colour symmetry", "Evaluate is called single-threaded (as the search does)"},
-		Required:    []string{"positions", "mirror_pairs", "play_vs_fen", "insufficient_material_positions", "configs_lazy", "configs_advpiece", "asymmetric_psqt_rows_touched", "lazy_cutoff_taken"},
+		Required:    []string{"positions", "mirror_pairs", "play_vs_fen", "insufficient_material_positions", "configs_lazy", "configs_advpiece", "asymmetric_psqt_rows_touched", "lazy_cutoff_taken", "same_position_across_option_change"},
 		MinEvals:    20000,
 	})
 }
@@ -60,7 +60,13 @@ func c15(c *Ctx) {
 				break
 			}
 		}
-		for _, cfg := range evalCfgs {
+		for ci, cfg := range evalCfgs {
+			if ci > 0 {
+				// the last thing the reused evaluator sees under the old options is this very
+				// position: nothing computed under them may survive the option change
+				reused.Evaluate(p)
+				rep.Inc("same_position_across_option_change")
+			}
 			setEvalCfg(cfg)
 			if cfg.lazy {
 				rep.Inc("configs_lazy")
